@@ -11,16 +11,17 @@ This file: the pieces of one iteration of the helper's main loop on the path "no
 The statements are *extracted* from the generated value `Gen.Src.«call_rcu_thread»` (`mainBody`, `gpBlock`, `iterBody`),
 not copied.
 
-## Abstraction of events (`absH L C b`; `C` = the helper's `struct call_rcu_data`, `b` = the batch of the iteration)
+## Abstraction of events (`absH L C`; `C` = the helper's `struct call_rcu_data`)
 
 * `ld C->flags = n` ↦ `ldFlags n`; `ld C->futex = v` ↦ `ldFutex v`; `st C->futex := 0` ↦ `stFutex0`;
   `uatomic_dec(&C->futex)` ↦ `decFutex`; `uatomic_or/and(&C->flags, m)` ↦ `orFlags m` / `andFlags m`;
   `uatomic_sub(&C->qlen, n)` ↦ `sub n`
 * public queue: `ld C->cbs_head.next = v` ↦ `ldHead (v ≠ NULL)`; `ld C->cbs_tail.p = v` ↦ `ldTail (v = &C->cbs_head)`;
   `xchg(&C->cbs_head.next, NULL) = v` ↦ `xchgHead (cb of v)`;
-  `xchg(&C->cbs_tail.p, &C->cbs_head) = &H->next` ↦ `splice b (cb H)` – **L2's `hSplice`: the abstract batch `b` is
-  not a value of the event (the event returns only the last node); it is the parameter of the abstraction, tied to
-  the run by the queue oracle discipline below and by `Obs` (`b = queue h`, `last = b.getLast`)**
+  `xchg(&C->cbs_tail.p, &C->cbs_head) = &H->next` ↦ `splice (L.batch H) (cb H)` – **L2's `hSplice`: the abstract batch
+  is not a value of the event (the event returns only the last node); it is `Layout.batch` of the last node – a
+  prophecy parameter of the abstraction (an `rcu_head` is queued once, so the batch that ends with it is unique), tied
+  to the run by the queue oracle discipline below and by `Obs` (`b = queue h`, `last = b.getLast`)**
 * `ext synchronize_rcu` ↦ `gp`; `ext (*func)(fv, H)` ↦ `run (cb H)`; `ext poll` ↦ `poll`;
   `futex_async(&C->futex, FUTEX_WAIT, -1, …) = r` ↦ `futexWait r`; `ext errno = e` ↦ `errno e`
 * silent: fences / compiler barriers; `rcu_register_thread`, `rcu_unregister_thread`, `rcu_thread_offline`,
@@ -85,7 +86,7 @@ def cbOfNode (L : Layout) : Val → Option Nat
   | .ptr (.field Hd f) => if f = "next" then L.cb Hd else none
   | _ => none
 
-def absH (L : Layout) (C : Loc) (b : List Nat) : Event → List H.LLabel
+def absH (L : Layout) (C : Loc) : Event → List H.LLabel
   | .fence _ => []
   | .ext name args r =>
     if name = "synchronize_rcu" then [.gp]
@@ -111,7 +112,9 @@ def absH (L : Layout) (C : Loc) (b : List Nat) : Event → List H.LLabel
       (if old = .int 0 then [.xchgHead none]
        else match cbOfNode L old with | some id => [.xchgHead (some id)] | none => [.bad])
     else if l = .field (.field C "cbs_tail") "p" ∧ new = .ptr (.field C "cbs_head") then
-      (match cbOfNode L old with | some id => [.splice b id] | none => [.bad])
+      (match old, cbOfNode L old with
+       | .ptr (.field Hl _), some id => [.splice (L.batch Hl) id]
+       | _, _ => [.bad])
     else if l = .field tmpT "p" then []
     else [.bad]
   | .st l v _ =>
@@ -226,12 +229,12 @@ def IterPost (L : Layout) (env0 : Env) (rt : Bool) (more : List (Val → Prop)) 
   (out.ctl = .normal ∧ ls' = ⟨.inv, 0, [], c + Hs.length, rt⟩ ∧ IterEnv out.env (.int 0) (c + Hs.length) env0 ∧
     Follows more out.inp)
 
-theorem iter_loop (L : Layout) (C : Loc) (b : List Nat) (fuel : Nat) (env0 : Env) (rt : Bool)
+theorem iter_loop (L : Layout) (C : Loc) (fuel : Nat) (env0 : Env) (rt : Bool)
     (more : List (Val → Prop)) :
     ∀ (n : Nat) (Hs : List Loc) (env : Env) (inp : List Val) (acc : List Event) (c : Nat),
       HeadsOk L env0.priv Hs → IterEnv env (curOf Hs) c env0 → Follows (iterSpec Hs ++ more) inp →
       ∃ out evs, iterate (exec fuel iterBody) n env inp acc = .ok out ∧ out.events = acc ++ evs ∧
-        ∃ ls', H.lrun ⟨.inv, 0, idsOf L Hs, c, rt⟩ (evs.flatMap (absH L C b)) = some ls' ∧
+        ∃ ls', H.lrun ⟨.inv, 0, idsOf L Hs, c, rt⟩ (evs.flatMap (absH L C)) = some ls' ∧
           IterPost L env0 rt more c Hs out ls' := by
   intro n
   induction n with
@@ -319,26 +322,26 @@ theorem iter_loop (L : Layout) (C : Loc) (b : List Nat) (fuel : Nat) (env0 : Env
           exact hp
 
 /-- `iter_loop` in the form used after `generalize hit : iterate … = r` -/
-theorem iter_loop' (L : Layout) (C : Loc) (b : List Nat) (rt : Bool) (more : List (Val → Prop))
+theorem iter_loop' (L : Layout) (C : Loc) (rt : Bool) (more : List (Val → Prop))
     {fuel n : Nat} {env : Env} {inp : List Val} {acc : List Event} {r : Except String Out}
     (hit : iterate (exec fuel iterBody) n env inp acc = r) (env0 : Env) (Hs : List Loc) (c : Nat)
     (hH : HeadsOk L env0.priv Hs) (hE : IterEnv env (curOf Hs) c env0) (hF : Follows (iterSpec Hs ++ more) inp) :
     ∃ out evs, r = .ok out ∧ out.events = acc ++ evs ∧
-      ∃ ls', H.lrun ⟨.inv, 0, idsOf L Hs, c, rt⟩ (evs.flatMap (absH L C b)) = some ls' ∧
+      ∃ ls', H.lrun ⟨.inv, 0, idsOf L Hs, c, rt⟩ (evs.flatMap (absH L C)) = some ls' ∧
         IterPost L env0 rt more c Hs out ls' := by
   subst hit
-  exact iter_loop L C b fuel env0 rt more n Hs env inp acc c hH hE hF
+  exact iter_loop L C fuel env0 rt more n Hs env inp acc c hH hE hF
 
 /-- `iter_loop'` with the loop's initial environment as the reference environment -/
-theorem iter_loop'' (L : Layout) (C : Loc) (b : List Nat) (rt : Bool) (more : List (Val → Prop))
+theorem iter_loop'' (L : Layout) (C : Loc) (rt : Bool) (more : List (Val → Prop))
     {fuel n : Nat} {env : Env} {inp : List Val} {acc : List Event} {r : Except String Out}
     (hit : iterate (exec fuel iterBody) n env inp acc = r) (Hs : List Loc) (c : Nat)
     (hH : HeadsOk L env.priv Hs) (h10 : env.vars "_t10" = some (curOf Hs)) (hcc : env.vars "cbcount" = some (.int c))
     (hF : Follows (iterSpec Hs ++ more) inp) :
     ∃ out evs, r = .ok out ∧ out.events = acc ++ evs ∧
-      ∃ ls', H.lrun ⟨.inv, 0, idsOf L Hs, c, rt⟩ (evs.flatMap (absH L C b)) = some ls' ∧
+      ∃ ls', H.lrun ⟨.inv, 0, idsOf L Hs, c, rt⟩ (evs.flatMap (absH L C)) = some ls' ∧
         IterPost L env rt more c Hs out ls' :=
-  iter_loop' L C b rt more hit env Hs c hH ⟨h10, hcc, rfl, rfl, rfl⟩ hF
+  iter_loop' L C rt more hit env Hs c hH ⟨h10, hcc, rfl, rfl, rfl⟩ hF
 
 /-- `___cds_wfcq_first_blocking(head, tail)` on a queue whose first link is published: the two loads of `head->next`
 (by `_cds_wfcq_empty` and by `___cds_wfcq_node_sync_next`) -/
@@ -364,12 +367,12 @@ def GpPost (env : Env) (rt : Bool) (more : List (Val → Prop)) (k : Nat) (out :
     out.env.vars "rt" = env.vars "rt" ∧ (∀ m, m ≠ .glob "&attempt" → out.env.priv m = env.priv m) ∧
     Follows more out.inp)
 
-theorem gpBlock_refines (L : Layout) (C : Loc) (b : List Nat) (rt : Bool) (more : List (Val → Prop))
+theorem gpBlock_refines (L : Layout) (C : Loc) (rt : Bool) (more : List (Val → Prop))
     (fuel : Nat) (env : Env) (inp : List Val) (H1 : Loc) (t : List Loc)
     (hc : env.vars "crdp" = some (.ptr C)) (hH : HeadsOk L env.priv (H1 :: t))
     (hF : Follows (gpSpec (H1 :: t) ++ more) inp) :
     ∃ out, exec fuel gpBlock env inp = .ok out ∧
-      ∃ ls', H.lrun ⟨.gp, 0, idsOf L (H1 :: t), 0, rt⟩ (out.events.flatMap (absH L C b)) = some ls' ∧
+      ∃ ls', H.lrun ⟨.gp, 0, idsOf L (H1 :: t), 0, rt⟩ (out.events.flatMap (absH L C)) = some ls' ∧
         GpPost env rt more (t.length + 1) out ls' := by
   rw [show gpBlock = .seq _ (.seq _ (.seq _ (.seq _ (.seq (.loop iterBody) _)))) from rfl]
   match inp, hF with
@@ -399,7 +402,7 @@ theorem gpBlock_refines (L : Layout) (C : Loc) (b : List Nat) (rt : Bool) (more 
       clear hfb
       sexec
       generalize hit : iterate (exec (fuel + 1) iterBody) _ _ _ _ = r
-      obtain ⟨out, evs, rfl, hev, ls', hl, hp⟩ := iter_loop'' L C b rt ([anyV] ++ more) hit (H1 :: t) 0
+      obtain ⟨out, evs, rfl, hev, ls', hl, hp⟩ := iter_loop'' L C rt ([anyV] ++ more) hit (H1 :: t) 0
         (by intro Hd hHd; obtain ⟨h1, fv, h2⟩ := hH Hd hHd; exact ⟨h1, fv, by simpa using h2⟩)
         (by simp [curOf]) (by simp) hF'
       clear hit
@@ -422,5 +425,101 @@ theorem gpBlock_refines (L : Layout) (C : Loc) (b : List Nat) (rt : Bool) (more 
           simp [H.lrun, H.lstep, H.lstepAt, absH, GpPost, List.flatMap_cons, privLoc, hl, hcr, hcc, H.lrun_append,
             List.flatMap_append, hFm', hrt, hpr, hc]
           intro m h1 h2; exact absurd h2 h1
+
+/-! ## the splice of the public queue into the private one -/
+
+/-- values consumed by `___cds_wfcq_splice_blocking(&cbs_tmp, &crdp->cbs)` when the public queue holds `H₁ … H_l`
+(settled): `_cds_wfcq_empty` sees a non-NULL `cbs_head.next` (`sawNull = false`) or NULL and then a tail that is not the
+head; the exchange of `cbs_head.next` returns the first node, the exchange of `cbs_tail.p` the last node, the exchange of
+the private tail `cbs_tmp_tail.p` returns the private head (the queue was initialised just before: its own store) -/
+def spliceSpec (C H1 Hl : Loc) (sawNull : Bool) : List (Val → Prop) :=
+  (if sawNull then [(· = .int 0), (· ≠ .ptr (.field C "cbs_head"))] else [(· ≠ .int 0)]) ++
+  [(· = .ptr (nd H1)), (· = .ptr (nd Hl)), (· = .ptr tmpH)]
+
+def SplicePost (env : Env) (b : List Nat) (rt : Bool) (more : List (Val → Prop)) (out : Out) (ls' : H.LState) : Prop :=
+  ((out.ctl = .blocked ∨ out.ctl = .fuel) ∧ (ls'.pc = .splice ∨ ls'.pc = .gp) ∧ ls'.rt = rt) ∨
+  (out.ctl = .ret (some (.int 0)) ∧ ls' = ⟨.gp, 0, b, 0, rt⟩ ∧
+    (∀ m, m ≠ .glob "&attempt" → m ≠ .field tmpH "next" → out.env.priv m = env.priv m) ∧ Follows more out.inp)
+
+open Lean.Parser.Tactic in
+set_option hygiene false in
+macro "splice_leaves" : tactic => `(tactic| (
+  (rcases inp with _ | ⟨v1, _ | ⟨v2, _ | ⟨v3, _ | ⟨v4, _ | ⟨v5, rest⟩⟩⟩⟩⟩) <;>
+  simp only [spliceSpec, Follows, if_true, if_false, List.cons_append, List.nil_append, Bool.false_eq_true] at hF <;>
+  sexec [«___cds_wfcq_splice_blocking», «___cds_wfcq_splice», «_cds_wfcq_empty», «___cds_wfcq_append», iterate] <;>
+  simp [absH, H.lrun, H.lstep, H.lstepAt, SplicePost, privLoc, cbOfNode, List.flatMap_cons, hcb1, hcbl, hB, hb, hF] <;>
+  (try (intro m hm1 hm2; simp [hm1, hm2]))))
+
+theorem splice_nonempty_aux (L : Layout) (C : Loc) (b b0 : List Nat) (c0 : Nat) (rt : Bool) (more : List (Val → Prop))
+    (fuel : Nat) (env : Env) (inp : List Val) (H1 Hl : Loc) (sn : Bool) (id1 idl : Nat) (mbv : Int) (hmb : mbv = 0)
+    (h1 : env.vars "dest_q_head" = some (.ptr tmpH)) (h2 : env.vars "dest_q_tail" = some (.ptr tmpT))
+    (h3 : env.vars "src_q_head" = some (.ptr (.field C "cbs_head")))
+    (h4 : env.vars "src_q_tail" = some (.ptr (.field C "cbs_tail")))
+    (hcfg : env.priv (.glob "CONFIG_RCU_EMIT_LEGACY_MB") = some (.int mbv))
+    (hcb1 : L.cb H1 = some id1) (hcbl : L.cb Hl = some idl) (hB : L.batch Hl = b) (hb : b ≠ [])
+    (hF : Follows (spliceSpec C H1 Hl sn ++ more) inp) :
+    ∃ out, exec (fuel + 1) «___cds_wfcq_splice_blocking» env inp = .ok out ∧
+      ∃ ls', H.lrun ⟨.splice, 0, b0, c0, rt⟩ (out.events.flatMap (absH L C)) = some ls' ∧
+        SplicePost env b rt more out ls' := by
+  cases sn
+  · splice_leaves
+  · splice_leaves
+
+theorem splice_nonempty_aux' (L : Layout) (C : Loc) (b b0 : List Nat) (c0 : Nat) (rt : Bool) (more : List (Val → Prop))
+    (fuel : Nat) (env : Env) (inp : List Val) (H1 Hl : Loc) (sn : Bool) (id1 idl : Nat) (mbv : Int) (hmb : ¬ mbv = 0)
+    (h1 : env.vars "dest_q_head" = some (.ptr tmpH)) (h2 : env.vars "dest_q_tail" = some (.ptr tmpT))
+    (h3 : env.vars "src_q_head" = some (.ptr (.field C "cbs_head")))
+    (h4 : env.vars "src_q_tail" = some (.ptr (.field C "cbs_tail")))
+    (hcfg : env.priv (.glob "CONFIG_RCU_EMIT_LEGACY_MB") = some (.int mbv))
+    (hcb1 : L.cb H1 = some id1) (hcbl : L.cb Hl = some idl) (hB : L.batch Hl = b) (hb : b ≠ [])
+    (hF : Follows (spliceSpec C H1 Hl sn ++ more) inp) :
+    ∃ out, exec (fuel + 1) «___cds_wfcq_splice_blocking» env inp = .ok out ∧
+      ∃ ls', H.lrun ⟨.splice, 0, b0, c0, rt⟩ (out.events.flatMap (absH L C)) = some ls' ∧
+        SplicePost env b rt more out ls' := by
+  cases sn
+  · splice_leaves
+  · splice_leaves
+
+/-- `___cds_wfcq_splice_blocking(&cbs_tmp, &crdp->cbs)` on a non-empty settled public queue: from L2's pc `splice` to
+`gp` with `batch := b` (`hSplice`), return value `CDS_WFCQ_RET_DEST_EMPTY` -/
+theorem splice_nonempty (L : Layout) (C : Loc) (b b0 : List Nat) (c0 : Nat) (rt : Bool) (more : List (Val → Prop))
+    {fuel : Nat} {env : Env} {inp : List Val} {r : Except String Out}
+    (hE : exec (fuel + 1) «___cds_wfcq_splice_blocking» env inp = r) (H1 Hl : Loc) (sn : Bool) (id1 idl : Nat) (mbv : Int)
+    (h1 : env.vars "dest_q_head" = some (.ptr tmpH)) (h2 : env.vars "dest_q_tail" = some (.ptr tmpT))
+    (h3 : env.vars "src_q_head" = some (.ptr (.field C "cbs_head")))
+    (h4 : env.vars "src_q_tail" = some (.ptr (.field C "cbs_tail")))
+    (hcfg : env.priv (.glob "CONFIG_RCU_EMIT_LEGACY_MB") = some (.int mbv))
+    (hcb1 : L.cb H1 = some id1) (hcbl : L.cb Hl = some idl) (hB : L.batch Hl = b) (hb : b ≠ [])
+    (hF : Follows (spliceSpec C H1 Hl sn ++ more) inp) :
+    ∃ out, r = .ok out ∧
+      ∃ ls', H.lrun ⟨.splice, 0, b0, c0, rt⟩ (out.events.flatMap (absH L C)) = some ls' ∧
+        SplicePost env b rt more out ls' := by
+  subst hE
+  by_cases hmb : mbv = 0
+  · exact splice_nonempty_aux L C b b0 c0 rt more fuel env inp H1 Hl sn id1 idl mbv hmb h1 h2 h3 h4 hcfg hcb1 hcbl hB hb hF
+  · exact splice_nonempty_aux' L C b b0 c0 rt more fuel env inp H1 Hl sn id1 idl mbv hmb h1 h2 h3 h4 hcfg hcb1 hcbl hB hb hF
+
+/-- `___cds_wfcq_splice_blocking(&cbs_tmp, &crdp->cbs)` on an empty public queue (`cbs_head.next` NULL and
+`cbs_tail.p == &cbs_head`): L2's `hSplice` with an empty queue, return value `CDS_WFCQ_RET_SRC_EMPTY` -/
+theorem splice_empty (L : Layout) (C : Loc) (b0 : List Nat) (c0 : Nat) (rt : Bool) (more : List (Val → Prop))
+    {fuel : Nat} {env : Env} {inp : List Val} {r : Except String Out}
+    (hE : exec fuel «___cds_wfcq_splice_blocking» env inp = r)
+    (h1 : env.vars "dest_q_head" = some (.ptr tmpH)) (h2 : env.vars "dest_q_tail" = some (.ptr tmpT))
+    (h3 : env.vars "src_q_head" = some (.ptr (.field C "cbs_head")))
+    (h4 : env.vars "src_q_tail" = some (.ptr (.field C "cbs_tail")))
+    (hF : Follows ([(· = .int 0), (· = .ptr (.field C "cbs_head"))] ++ more) inp) :
+    ∃ out, r = .ok out ∧
+      ∃ ls', H.lrun ⟨.splice, 0, b0, c0, rt⟩ (out.events.flatMap (absH L C)) = some ls' ∧
+        ((out.ctl = .blocked ∧ ls'.pc = .splice ∧ ls'.rt = rt) ∨
+         (out.ctl = .ret (some (.int 2)) ∧ ls' = ⟨.stopchk, 0, b0, c0, rt⟩ ∧
+           (∀ m, m ≠ .glob "&attempt" → out.env.priv m = env.priv m) ∧ Follows more out.inp)) := by
+  subst hE
+  (rcases inp with _ | ⟨v1, _ | ⟨v2, rest⟩⟩) <;>
+  simp only [Follows, List.cons_append, List.nil_append] at hF <;>
+  sexec [«___cds_wfcq_splice_blocking», «___cds_wfcq_splice», «_cds_wfcq_empty»] <;>
+  simp [absH, H.lrun, H.lstep, H.lstepAt, privLoc, List.flatMap_cons, hF] <;>
+  (try (intro m hm1 hm2; simp [hm1] at hm2))
+
+
 
 end UrcuVerif.Src.CallRcuR
